@@ -480,12 +480,17 @@ Section Ops.
     end.
 
   (* mongokit.CreateIndex *)
+  (* a key path with a segment that starts with '$' is rejected *)
+  Definition dollar_segment (k : string) : bool :=
+    existsb (fun s => match s with String "$" _ => true | _ => false end) (split_path k).
+
   Definition new_index (cf : iconfig) : res index :=
     match cf_key cf with
     | [] => Err
     | _ =>
         let* cols := columns (cf_key cf) in
-        if (0 <? cf_expiry cf) && (1 <? len (cf_key cf)) then Err
+        if existsb (fun col => dollar_segment (fst col)) cols then Err
+        else if (0 <? cf_expiry cf) && (1 <? len (cf_key cf)) then Err
         else Ok (mkIndex cf cols [])
     end.
 
